@@ -64,6 +64,9 @@ def fn_names():
         _FNS = sorted(set(ok))
     return _FNS
 
+# thorough tier: additionally a coverage-guided campaign (vf/fuzz.py) over the same strategy and oracle
+FUZZ = {"runs": 2500, "procs": 8}
+
 
 def budget(tier):
     return 4800 if tier == "quick" else 96000
